@@ -133,35 +133,37 @@ def genFirstReceiver (kind : ReceiverKind) (reference : Option (Option String)) 
   | .selfRef | .dynamicImpl => selfReceiverArg reference
   | .staticImpl => implReceiverArg
 
-def insertAt {α : Type} (x : α) : Nat → List α → List α
-  | 0, xs => x :: xs
-  | _ + 1, [] => [x]
-  | n + 1, y :: ys => y :: insertAt x n ys
+/-- first half of `generate_params`: the dependency parameter becomes the receiver (or one is
+    inserted for `no_deps`); inputs and trailing-comma flag -/
+def rewriteFirst (kind : ReceiverKind) (deps : FnDeps) (inputs : List FnArg) (itrail : Bool) :
+    Except String (List FnArg × Bool) :=
+  match deps with
+  | .noDeps =>
+      -- `Punctuated::insert(0, ..)`: a push when empty
+      .ok (genFirstReceiver kind (some none) :: inputs, if inputs.isEmpty then false else itrail)
+  | _ =>
+      match inputs with
+      | [] => .ok ([], itrail)
+      | .typed _ _ (.ref_ lt _ _) :: rest => .ok (genFirstReceiver kind (some lt) :: rest, itrail)
+      | .typed _ _ _ :: rest => .ok (genFirstReceiver kind none :: rest, itrail)
+      | .recv .. :: _ => .error "converter.rs: receiver in Rewrite"
 
-/-- `generate_params`: inputs and trailing-comma flag -/
+/-- second half: for dynamic dispatch `__impl` is inserted after the receiver -/
+def insertImplRecv (kind : ReceiverKind) (ins : List FnArg) (tr : Bool) : Except String (List FnArg × Bool) :=
+  match kind with
+  | .dynamicImpl =>
+      match ins with
+      | [] => .error "converter.rs: Punctuated::insert index out of bounds"
+      | [x] => .ok ([x, implReceiverArg], false)
+      | x :: y :: rest => .ok (x :: implReceiverArg :: y :: rest, tr)
+  | _ => .ok (ins, tr)
+
+/-- `generate_params` -/
 def generateParams (kind : ReceiverKind) (deps : FnDeps) (inputs : List FnArg) (itrail : Bool) :
     Except String (List FnArg × Bool) :=
-  let step1 : Except String (List FnArg × Bool) :=
-    match deps with
-    | .noDeps =>
-        -- `Punctuated::insert(0, ..)`: a push when empty
-        .ok (genFirstReceiver kind (some none) :: inputs, if inputs.isEmpty then false else itrail)
-    | _ =>
-        match inputs with
-        | [] => .ok ([], itrail)
-        | .typed _ _ (.ref_ lt _ _) :: rest => .ok (genFirstReceiver kind (some lt) :: rest, itrail)
-        | .typed _ _ _ :: rest => .ok (genFirstReceiver kind none :: rest, itrail)
-        | .recv .. :: _ => .error "converter.rs: receiver in Rewrite"
-  match step1 with
+  match rewriteFirst kind deps inputs itrail with
   | .error e => .error e
-  | .ok (ins, tr) =>
-    match kind with
-    | .dynamicImpl =>
-        match ins with
-        | [] => .error "converter.rs: Punctuated::insert index out of bounds"
-        | [x] => .ok ([x, implReceiverArg], false)
-        | _ => .ok (insertAt implReceiverArg 1 ins, tr)
-    | _ => .ok (ins, tr)
+  | .ok (ins, tr) => insertImplRecv kind ins tr
 
 /-- `is_type_eq_ident` -/
 def isTypeEqIdent (ty : Ty) (ident : String) : Bool :=
